@@ -676,6 +676,155 @@ func (c hctxMS) PrevCtx(h int64) (sdk.Context, error) {
 	return mkCtxMS(c.ms, h), nil
 }
 
+// hrCase: the keeper-level order of one relay is part of the tie.  The real keeper.HandleRelay is
+// called for relay 0 ("outer"); while it executes the request against the hosted chain (a local
+// HTTP server), the server's handler performs the interleaved action — deterministically, in the
+// same goroutine chain: the nested relays are full HandleRelay calls, the claim sender's read+seal
+// is EvidenceIterator+SealEvidence.  In the code as it is the proof is stored BEFORE the execution
+// (validate → store → execute → respond), so the schedule the model runs is
+//
+//	pre…, r_outer v,g,a,s, <nested blocks / c1,c2>, r_outer r
+//
+// `pre` relays are complete sequential HandleRelay calls made first.
+func hrCase(r *gen.R, name string, max int64, ids []int, pre []int, outer int, nested []string) {
+	s := mkSetup(r, config{name: name, max: max, ids: ids})
+	s.node.EvidenceStore = newStore()
+	var k pckeeper.Keeper
+	var ctx hctxMS
+	pcs := make([]string, len(ids))
+	for i := range pcs {
+		pcs[i] = "start"
+	}
+	var logEv []string
+	serve := func(i int) {
+		resp, err := k.HandleRelay(hctxMS{mkCtxMS(ctx.ms, s.e.height), s.e, ctx.ms}, s.relays[i])
+		if err == nil && resp != nil {
+			pcs[i] = "responded"
+			logEv = append(logEv, fmt.Sprintf("resp%d", i))
+		} else {
+			pcs[i] = "rejected"
+		}
+	}
+	depth := 0
+	srv := httptest.NewServer(http.HandlerFunc(func(w http.ResponseWriter, req *http.Request) {
+		b, _ := io.ReadAll(req.Body)
+		depth++
+		if depth == 1 && len(nested) > 0 && strings.Contains(string(b), fmt.Sprintf(`"id":%d}`, ids[outer])) && pcs[outer] == "start" && markOuter {
+			markOuter = false
+			for _, act := range nested {
+				if act == "seal" {
+					it := pc.EvidenceIterator(s.node.EvidenceStore)
+					var snap pc.Evidence
+					found := false
+					for ; it.Valid(); it.Next() {
+						ev := it.Value()
+						if ev.SessionHeader.HashString() == s.header.HashString() {
+							snap, found = ev, true
+						}
+					}
+					it.Close()
+					if found {
+						already := s.node.EvidenceStore.IsSealed(snap)
+						pc.SealEvidence(snap, s.node.EvidenceStore)
+						if !already {
+							logEv = append(logEv, "seal")
+						}
+					}
+				} else {
+					var j int
+					fmt.Sscanf(act, "r%d", &j)
+					serve(j)
+				}
+			}
+		}
+		depth--
+		fmt.Fprintf(w, `{"echo":%d}`, len(b))
+	}))
+	defer srv.Close()
+	db := dbm.NewMemDB()
+	ms := store.NewCommitMultiStore(db, false, 5000000)
+	pocketKey := sdk.NewKVStoreKey(pc.StoreKey)
+	ms.MountStoreWithDB(sdk.ParamsKey, sdk.StoreTypeIAVL, db)
+	ms.MountStoreWithDB(sdk.ParamsTKey, sdk.StoreTypeTransient, db)
+	ms.MountStoreWithDB(pocketKey, sdk.StoreTypeIAVL, db)
+	if err := ms.LoadLatestVersion(); err != nil {
+		panic(err)
+	}
+	hb := &pc.HostedBlockchains{M: map[string]pc.HostedBlockchain{chainA: {ID: chainA, URL: srv.URL}}}
+	k = pckeeper.NewKeeper(pocketKey, pc.ModuleCdc, nil, posStub{s.e}, appsStub{s.e}, hb, sdk.NewSubspace(pc.DefaultParamspace))
+	ctx = hctxMS{mkCtxMS(ms, s.e.height), s.e, ms}
+	params := pc.DefaultParams()
+	params.SessionNodeCount = 3
+	k.SetParams(ctx, params)
+	pc.GlobalPocketConfig.ClientSessionSyncAllowance = 0
+	pc.GlobalPocketConfig.LeanPocket = false
+	delete(codec.UpgradeFeatureMap, codec.EnforceMaxChainsUpdateKey)
+	pc.GlobalPocketNodes = map[string]*pc.PocketNode{s.node.GetAddress().String(): s.node}
+	// the schedule the model runs
+	var steps []string
+	block := func(i int) []string {
+		return []string{fmt.Sprintf("r%dv", i), fmt.Sprintf("r%dg", i), fmt.Sprintf("r%da", i), fmt.Sprintf("r%ds", i), fmt.Sprintf("r%dr", i)}
+	}
+	markOuter = false
+	for _, i := range pre {
+		serve(i)
+		steps = append(steps, block(i)...)
+	}
+	ob := block(outer)
+	steps = append(steps, ob[:4]...)
+	for _, act := range nested {
+		if act == "seal" {
+			steps = append(steps, "c1", "c2")
+		} else {
+			var j int
+			fmt.Sscanf(act, "r%d", &j)
+			steps = append(steps, block(j)...)
+		}
+	}
+	steps = append(steps, ob[4])
+	markOuter = true
+	serve(outer)
+	// final observation
+	stored, nn, sealed := "-", int64(0), false
+	if ev, err := pc.GetEvidence(s.header, pc.RelayEvidence, sdk.ZeroInt(), s.node.EvidenceStore); err == nil {
+		var l []string
+		for _, p := range ev.Proofs {
+			l = append(l, fmt.Sprint(s.byHash[p.HashString()]))
+		}
+		if len(l) > 0 {
+			stored = strings.Join(l, ",")
+		}
+		nn = ev.NumOfProofs
+		sealed = s.node.EvidenceStore.IsSealed(ev)
+	}
+	lg := "-"
+	if len(logEv) > 0 {
+		lg = strings.Join(logEv, ",")
+	}
+	t.Line("sched-"+name, true, "sched cfg=%s max=%d ids=%s respond=true steps=%s => stored=%s n=%d sealed=%v pcs=%s log=%s",
+		name, max, idsStr(ids), strings.Join(steps, ","), stored, nn, sealed, strings.Join(pcs, ","), lg)
+}
+
+var markOuter bool
+
+// hrFamily: the interleavings a hosted-chain round trip makes possible, through the real HandleRelay.
+func hrFamily(r *gen.R) {
+	// A: the identical request arrives while the first copy is being executed
+	hrCase(r, "hr-identical-during-execute", 5, []int{7, 7}, nil, 0, []string{"r1"})
+	// A': with an earlier relay already recorded
+	hrCase(r, "hr-identical-during-execute-prefilled", 5, []int{1, 7, 7}, []int{0}, 1, []string{"r2"})
+	// B: the claim sender reads and seals while a relay is being executed
+	hrCase(r, "hr-seal-during-execute", 5, []int{1}, nil, 0, []string{"seal"})
+	hrCase(r, "hr-seal-during-execute-prefilled", 5, []int{1, 2}, []int{0}, 1, []string{"seal"})
+	// C: distinct relays arrive while the relay that takes the last slot of the allowance is executed
+	hrCase(r, "hr-last-slot", 2, []int{1, 2, 3}, []int{0}, 1, []string{"r2"})
+	hrCase(r, "hr-last-slot-two", 1, []int{1, 2, 3}, nil, 0, []string{"r1", "r2"})
+	// D: a distinct relay during execution with room left (both must be recorded)
+	hrCase(r, "hr-distinct-during-execute", 5, []int{1, 2}, nil, 0, []string{"r1"})
+	// E: a relay, then the seal, then another relay during the first one's execution
+	hrCase(r, "hr-seal-then-relay-during-execute", 5, []int{1, 2}, nil, 0, []string{"seal", "r1"})
+}
+
 // freeRun: g goroutines call the real keeper.HandleRelay concurrently (requests drawn from
 // `distinct` different relays, so identical requests race too) while one goroutine seals.
 // Prints one result line to stdout.
@@ -832,6 +981,7 @@ func main() {
 		runConfig(r, config{name: "three-distinct", max: 5, ids: []int{1, 2, 3}}, 40)
 		runConfig(r, config{name: "three-distinct-max2", max: 2, ids: []int{1, 2, 3}}, 40)
 	}
+	hrFamily(r)
 	for i := 0; i < *serial; i++ {
 		serialCase(r, 1+i%3, 3+i%2, int64(2+i%3), 10+r.Intn(14))
 	}
